@@ -2,7 +2,7 @@
 From Coq Require Import List Arith Bool Reals ZArith QArith Qcanon Ring.
 From Coquelicot Require Import Coquelicot.
 Require Import NV.C03.Model NV.C03.Proofs NV.C03.PtwBase NV.C03.Gen_Ptw NV.C03.Proofs_Ptw
-               NV.C03.TableR NV.C03.Proofs_Real NV.C03.Proofs_Table NV.C03.ModelQ NV.C03.Proofs_Q NV.C03.Einsum NV.C03.Proofs_Einsum.
+               NV.C03.TableR NV.C03.Proofs_Real NV.C03.Proofs_Table NV.C03.ModelQ NV.C03.Proofs_Q NV.C03.Einsum NV.C03.Proofs_Einsum NV.C03.Contract NV.C03.Proofs_Contract.
 
 (* ---------------------------------------------------------------------------------------------
    Algebra, over EVERY commutative ring, every expression tree (any depth, any number of keys and
@@ -131,6 +131,17 @@ Theorem C03_einsum_jacobian :
        = sum_over A a0 aadd summed dim (bind oss oidx (fun _ => 0%nat))
            (fun s => fst (dterm A a0 a1 aadd amul iss ops ds s)).
 Proof. exact ein_jacobian_dual. Qed.
+
+(* Partial contractions (Linearization.sum(spaces) / .integrate(spaces), ContractionOperator / IntegrationOperator on
+   product domains with volume elements): the weighted contraction is linear over any commutative ring, so contracting
+   the Jacobian columns gives the exact Jacobian of  contraction o F  (and dual numbers are contracted part by part). *)
+Theorem C03_contraction_linear :
+  forall (A : Type) (a0 a1 : A) (aadd amul asub : A -> A -> A) (aopp : A -> A),
+    ring_theory a0 a1 aadd amul asub aopp (@eq A) ->
+  forall (w : A) (tbl : list (list nat)) (c : A) (x y : nat -> A) (o : nat),
+    nth o (contract A a0 aadd amul w tbl (fun i => aadd (amul c (x i)) (y i))) a0
+    = aadd (amul c (nth o (contract A a0 aadd amul w tbl x) a0)) (nth o (contract A a0 aadd amul w tbl y) a0).
+Proof. exact contract_linear. Qed.
 
 (* The rational instance executed by the correspondence check satisfies the hypotheses of the
    algebra theorems (ring, table purity, 1/2 * 2 = 1). *)
